@@ -64,7 +64,9 @@ var apTolerated = []string{"application/activity+json", "application/ld+json", "
 var apForeign = []string{"text/html", "text/html; charset=utf-8", "application/xml", "text/plain", "application/jrd+json", "image/png", "application/octet-stream", "application/activity+xml", "application/jsonx"}
 var wfTolerated = []string{"application/jrd+json", "application/json", "application/jrd+json; charset=utf-8"}
 var wfForeign = []string{"application/activity+json", "application/ld+json", "text/html", "application/xrd+xml"}
-var ctUnparsable = []string{"", "json", "/json", "application/", "application json", ";charset=utf-8"}
+var ctUnparsable = []string{"", "json", "/json", "application/", "application json", ";charset=utf-8",
+	// white space that is not optional white space (only space and tab are) around a good type
+	"\fapplication/activity+json", "\vapplication/json", "\u00a0application/activity+json", "\u3000application/json", "\f"}
 var noise = []string{"Server: sim/1.0", "Date: Sat, 01 Jan 2000 00:00:00 GMT", "Content-Length: 9999", "X-Content-Type: text/html", "Set-Cookie: id=1", "Vary: Accept",
 	"X-Content-Type-Options: nosniff", "Link: <https://h9.example/>; rel=\"alternate\"; type=\"text/html\"", "Content-Location: /elsewhere", "X-Location: https://h9.example/"}
 var badBodies = []string{"", "[1,2,3]", `"a string"`, "42", "true", "null", `{"a":`, `{"a":1`, "{", `{"a":1,}`, "<html></html>", `[{"id":"x"}]`, " ", "nul"}
@@ -229,7 +231,7 @@ func (r *Run) c03Build(t interface {
 				n.LocOK = false
 				n.Why = "non-https hop"
 			case 8:
-				n.Loc = []string{"https://h1.example/%zz", "https://[::1/x", "https://h1.example:port/x", ":"}[t.Draw(4)]
+				n.Loc = []string{"https://h1.example/%zz", "https://[::1/x", "https://h1.example:port/x", ":", "\f" + tu.RequestURI(), "\v" + target, target + "\f"}[t.Draw(7)]
 				n.LocOK = false
 				n.Why = "unparsable Location"
 			}
@@ -245,6 +247,10 @@ func (r *Run) c03Build(t interface {
 			body := ""
 			if t.Chance(1, 3) {
 				body = "<a href=\"" + n.Loc + "\">moved</a>"
+			}
+			if !n.LocOK && t.Chance(1, 2) {
+				// what follows the blank line is body, whatever it looks like (a 300 that lists choices)
+				body = "Location: " + target + eol + "location: " + target + eol + eol + body
 			}
 			h.Routes[pu.RequestURI()] = HTTPResponse(pick(redirStatus), headers, body, eol)
 		}
